@@ -37,6 +37,11 @@ def check_results(res, results, label):
             first = run["error"]
             if "list too long" in first:
                 continue
+            # the step that threw is the first one without a tree; when a fresh creation with the same data throws as well,
+            # the exception comes from the template's own expressions on that data, not from the update
+            idx = len(run.get("trees", []))
+            if idx >= 1 and idx - 1 < len(r["fresh"]) and r["fresh"][idx - 1].get("error"):
+                continue
             found += 1
             if found <= 5:
                 res.violation("%s: generated code throws during create/update: %s" % (label, first[:300]),
@@ -78,7 +83,7 @@ def guard_denotation(res):
         g, hoisted, guard = m.split("|")
         hoisted, guard = dec(hoisted), dec(guard)
         prog = ("(() => { const U = %s; const Z = function(a,b){if(a===true)return true;if(a)return a[b]};"
-                "const Q = {a:function(a){for(var i=0;i<a.length;i++)if(a[i])return a},b:function(b){var a=Object.values(b);for(var i=0;i<a.length;i++)if(a[i])return b}};"
+                "const Q = {a:function(a){for(var i=0;i<a.length;i++)if(a[i])return a},b:function(b){var a=Object.values(b);for(var i=0;i<a.length;i++)if(a[i])return b},c:function(a){var r={};for(var k in a)r[k]=a[k];return r}};"
                 "%s; return !!(%s) })()") % (json.dumps(j["u"]), hoisted, guard)
         njobs.append({"op": "eval", "id": k, "expr": prog, "data": j["data"]})
         idx.append(k)
